@@ -225,7 +225,13 @@ func (s *c03Store) GetPart(ctx context.Context, tx database.Tx, id partstore.Par
 			if err != nil {
 				return nil, err
 			}
-			return &c03BrokenReadCloser{rc: rc, left: 2, closeFails: c03P.mode == 2}, nil
+			// never the complete content: half of the part, then the error (a reader that is only
+			// asked for the bytes it does deliver would not notice anything)
+			data, _ := io.ReadAll(rc)
+			return &c03BrokenReadCloser{rc: struct {
+				io.Reader
+				io.Closer
+			}{bytes.NewReader(data), rc}, left: len(data) / 2, closeFails: c03P.mode == 2}, nil
 		}
 		return nil, c03ErrInjected
 	}
@@ -816,10 +822,10 @@ func runC03(args []string) {
 					}
 					out.Line("f %d ev=%s res=%s post=%s bad=%d", j, ev, strings.Join(strings.Fields(res)[1:], ":"), c03Digest(post), c03Bad(post))
 					out.Line("fc %s", c03Calls(nm, calls))
-					out.Line("fd %s", stk.dirListing(nm))
 					if c03Digest(post) != c03Digest(pre) {
 						c03Diff(out, "fx", pre, post, 4)
 					}
+					out.Line("fd %s", stk.dirListing(nm))
 				}
 				if !reached {
 					// that attempt was the normal execution
